@@ -717,6 +717,13 @@ def _run_history(case, judge=False):
                     if isinstance(a, np.ndarray) and a.flags.writeable:
                         fails.append(('flag-array:%s:%s' % (frozen_at.get(id(q), (0, 0, k))[2] if i < nv else desc, nm),
                                       'step %d (%s): object #%d is read-only but its %s array is writeable' % (t, desc, i, nm)))
+                # "objects that share its storage (... wod) are read-only too": the derivative-free view the object
+                # hands out as `.wod` is cached inside it; as_readonly() reaches it whatever `recursive` says
+                w = q._cache_.get('wod') if isinstance(getattr(q, '_cache_', None), dict) else None
+                if isinstance(w, Qube) and w is not q and not w._readonly_:
+                    fails.append(('wod-writable:' + desc, 'step %d (%s): object #%d is read-only but the wod it hands out '
+                                  '(cached before it became read-only) is not; set_units / whole-object assignment on it go '
+                                  'through and x.wod diverges from x' % (t, desc, i)))
                 if id(q) not in shallow:
                     for kk, d in q._derivs_.items():
                         if not d._readonly_:
@@ -1103,6 +1110,32 @@ def gen_cases(rng, tier):
             ins.append({'op': 'insds', 'v': v, 'kds': [[0, nd], [2, nd]], 'ov': ov})
             ins.append({'op': 'insds', 'v': v, 'kds': [[2, nd]], 'ov': ov})
         cases.append({'hist': hist + ins, 'kind': 'matrix-derivs:%s' % wname})
+    # 2b. the derivative-free view `wod`, queried and held BEFORE the object becomes read-only by each route
+    #     (as_readonly with and without recursive, broadcast_to with and without recursive), then every kind of
+    #     mutator and direct array write aimed at the held wod
+    for pname, pops in P:
+        R = Real()
+        for op in pops:
+            R.run(op)
+        if not R.vars[0]._derivs_:
+            continue
+        w = len(R.vars)                         # the variable the wod will get
+        routes = [[{'op': 'asro', 'v': 0, 'rec': 'default'}], [{'op': 'asro', 'v': 0, 'rec': False}],
+                  [{'op': 'derive', 'v': 0, 'how': 'bcast', 'rec': True}], [{'op': 'derive', 'v': 0, 'how': 'bcast', 'rec': False}]]
+        for route in routes:
+            wv = w
+            aims = [[{'op': 'setunits', 'v': wv, 'u': 1, 'ov': 'default'}],
+                    [{'op': 'setitem', 'v': wv, 'index': 'ell', 'arg': 'number'}],
+                    [{'op': 'setitem', 'v': wv, 'index': 'i0' if R.vars[0]._shape_ else 'ell', 'arg': 'number'}],
+                    [{'op': 'iop', 'v': wv, 'sym': '+=', 'arg': 'number' if type(R.vars[0]).__name__ == 'Scalar' else 'qube'}],
+                    [{'op': 'delds', 'v': wv, 'ov': 'default'}]]
+            if isinstance(R.vars[0]._values_, np.ndarray) and R.vars[0]._values_.size:
+                aims.append([{'op': 'rawref', 'v': wv, 'mask': False}, {'op': 'write', 'u': 0, 'pos': [0]}])
+            if isinstance(R.vars[0]._mask_, np.ndarray) and R.vars[0]._mask_.size:
+                aims.append([{'op': 'rawref', 'v': wv, 'mask': True}, {'op': 'write', 'u': 0, 'pos': [0]}])
+            for aim in aims:
+                cases.append({'hist': list(pops) + [{'op': 'wod', 'v': 0}] + route + aim + [{'op': 'wod', 'v': 0}],
+                              'kind': 'held-wod:' + pname})
     # 3. random histories
     nrand = 6000 if thorough else 500
     dmax = 30 if thorough else 12
